@@ -46,15 +46,64 @@ func errKind(stage string, err error) string {
 	return stage + "-error"
 }
 
-func normalize(v reflect.Value) interface{} {
-	if v.Kind() == reflect.Slice && v.Len() == 0 {
-		return nil
+// sameExported compares two values of one type through their exported fields only, recursively:
+// unexported members of a library structure are its internal state, not field values, and a nil
+// and an empty slice are the same (empty) value.
+func sameExported(a, b reflect.Value) bool {
+	if a.Type() != b.Type() {
+		return false
 	}
-	return v.Interface()
+	switch a.Kind() {
+	case reflect.Struct:
+		for i := 0; i < a.NumField(); i++ {
+			if a.Type().Field(i).IsExported() && !sameExported(a.Field(i), b.Field(i)) {
+				return false
+			}
+		}
+		return true
+	case reflect.Slice, reflect.Array:
+		if a.Len() != b.Len() {
+			return false
+		}
+		for i := 0; i < a.Len(); i++ {
+			if !sameExported(a.Index(i), b.Index(i)) {
+				return false
+			}
+		}
+		return true
+	case reflect.Ptr, reflect.Interface:
+		if a.IsNil() || b.IsNil() {
+			return a.IsNil() == b.IsNil()
+		}
+		return sameExported(a.Elem(), b.Elem())
+	case reflect.Map:
+		if a.Len() != b.Len() {
+			return false
+		}
+		for _, k := range a.MapKeys() {
+			if bv := b.MapIndex(k); !bv.IsValid() || !sameExported(a.MapIndex(k), bv) {
+				return false
+			}
+		}
+		return true
+	case reflect.Bool:
+		return a.Bool() == b.Bool()
+	case reflect.Int, reflect.Int8, reflect.Int16, reflect.Int32, reflect.Int64:
+		return a.Int() == b.Int()
+	case reflect.Uint, reflect.Uint8, reflect.Uint16, reflect.Uint32, reflect.Uint64, reflect.Uintptr:
+		return a.Uint() == b.Uint()
+	case reflect.Float32, reflect.Float64:
+		return a.Float() == b.Float()
+	case reflect.Complex64, reflect.Complex128:
+		return a.Complex() == b.Complex()
+	case reflect.String:
+		return a.String() == b.String()
+	}
+	return false // functions, channels: no such field values in the wire types
 }
 
 // fieldsEqual compares one own field of two commands; strings are compared by
-// format and content (the Length field is derived).
+// format and content (the Length field is derived), everything else through its exported fields.
 func fieldsEqual(a, b reflect.Value) bool {
 	switch a.Type().String() {
 	case "types.SMB_STRING":
@@ -73,7 +122,7 @@ func fieldsEqual(a, b reflect.Value) bool {
 		}
 		return true
 	case "types.SMB_RESUME_KEY":
-		return a.FieldByName("Reserved").Uint() == b.FieldByName("Reserved").Uint() && reflect.DeepEqual(a.FieldByName("ServerState").Interface(), b.FieldByName("ServerState").Interface()) && reflect.DeepEqual(a.FieldByName("ClientState").Interface(), b.FieldByName("ClientState").Interface())
+		return a.FieldByName("Reserved").Uint() == b.FieldByName("Reserved").Uint() && sameExported(a.FieldByName("ServerState"), b.FieldByName("ServerState")) && sameExported(a.FieldByName("ClientState"), b.FieldByName("ClientState"))
 	case "types.SMB_DIRECTORY_INFORMATION":
 		for _, n := range []string{"ResumeKey", "FileAttributes", "LastWriteTime", "LastWriteDate", "FileSize"} {
 			if !fieldsEqual(a.FieldByName(n), b.FieldByName(n)) {
@@ -95,7 +144,7 @@ func fieldsEqual(a, b reflect.Value) bool {
 		}
 		return true
 	}
-	return reflect.DeepEqual(normalize(a), normalize(b))
+	return sameExported(a, b)
 }
 
 func safeMarshal(c smbgen.Cmd) (b []byte, err error) {
